@@ -49,6 +49,17 @@ def runOp1 (noneGood : Bool) (op : String) : DocM String :=
       let v ← checkpicosvg (a == "1") (d == "1")
       pure ("\x1d".intercalate (v.map encViolation))
   | ["topicosvg", n, a, d] => do topicosvg (n.toInt?.getD 3) (a == "1") (d == "1") noneGood; pure ""
+  | "set_attributes" :: kvs => do
+      setRootAttributes (kvs.filterMap (fun kv => match kv.splitOn "=" with | [k, v] => some (k, v) | _ => none)); pure ""
+  | "remove_attributes" :: names => do removeRootAttributes names; pure ""
+  | ["bounding_box"] => do
+      match ← boundingBox with
+      | none => pure "None"
+      | some r => pure (" ".intercalate [fHex r.x, fHex r.y, fHex r.w, fHex r.h])
+  | ["view_box"] => do
+      match ← viewBoxQ with
+      | none => pure "None"
+      | some r => pure (" ".intercalate [fHex r.x, fHex r.y, fHex r.w, fHex r.h])
   | ["tostring"] => do let _ ← toTree; pure ""
   | ["shapes"] => do let _ ← elements; pure ""
   | _ => DocM.fail .notImplementedError
